@@ -124,6 +124,9 @@ func (ci *ChunkInfo) UpdateChunkInfoSource(rootCid, sourceOverlay boson.Address,
 	}
 
 	v := ci.getCidSort(rootCid, cid)
+	if v < 0 {
+		return nil
+	}
 	for _, bit := range ci.cs.presence[rc].ChunkSource {
 		if bit.Get(v) {
 			return nil
